@@ -59,7 +59,8 @@ impl MemTableSource {
     }
 
     fn determine_limit(&self, ctx: &QueryContext) -> Option<usize> {
-        if ctx.should_defer_limit() {
+        // Aggregates: LIMIT caps groups (applied in AggregateStreamMerger), never input events.
+        if ctx.should_defer_limit() || self.config.plan.aggregate_plan.is_some() {
             None
         } else {
             self.config
